@@ -65,10 +65,10 @@ CFG = {
         "Store/Load/LoadAndDelete/LoadOrStore/LoadOrStoreLazy/Delete of LazyMap (all keys); Range/Len/Clear are in neither model. The "
         "model's Delete runs LoadAndDelete's steps including its final value read (a stutter read the Go Delete does not have). "
         "C04_lazyskip_one_remove_wins assumes the key is added by the only Add of that key, which responds before every Remove of it is "
-        "invoked. In-code yield points ARE present since round 5: add-only lines `verifYield(k)` (k = 1..6; empty function without the "
+        "invoked. In-code yield points ARE present since round 5: add-only lines `verifYield(k)` (k = 1..8; empty function without the "
         "build tag, VerifYieldHook with it) after a remover's marking, after an adder's validation, before fullyLinked, in randomLevel "
-        "between load and CAS, and on the found-node paths of readers and updaters. The harness uses them for SCRIPTED schedules (an "
-        "operation parked inside a window while the others run against it: 10 map + 8 set scenarios x 4 comparator variants, each a "
+        "between load and CAS, on the found-node paths of readers and updaters, and (7, 8, added in round 7 after seed C04-16 was missed) between an insert's publication / a delete's unlinking and the update of the atomic length counter, i.e. the window in which the counter lags the contents. The harness uses them for SCRIPTED schedules (an "
+        "operation parked inside a window while the others run against it: 15 map + 10 set scenarios x 4 comparator variants, each a "
         "tiny history judged by lin_check/range_ok_b -- deterministic) and, in a quarter of the random rounds, to reschedule at one "
         "point in eight. The random rounds are additionally perturbed from outside (GOMAXPROCS cycling "
         "1/2/4/16, a spinning per-operation barrier that releases all goroutines together in 3 of 4 rounds, seeded "
